@@ -72,7 +72,7 @@ class History(object):
 
 
 def _run_history_body(h, backend, sender, factory_bounces, backoff_table, rcpts, outcomes, store_pool=None, relay_pool=None,
-                headers_only=False, timeout=5.0, expect_rounds=None):
+                headers_only=False, timeout=5.0, expect_rounds=None, store_fail=None):
     """backend: harness.props.c15.Backend instance. Returns (History, final) with final =
     ('gone',) or ('alive', [rcpt ids], attempts)."""
     from slimta.queue import Queue
@@ -159,6 +159,14 @@ def _run_history_body(h, backend, sender, factory_bounces, backoff_table, rcpts,
             def call(*a, **kw):
                 state['store_inflight'] = state.get('store_inflight', 0) + 1
                 try:
+                    if store_fail and name == store_fail[0]:
+                        # the storage fails once, at the n-th call of this operation (a full disk, a lost connection)
+                        k = state.get('fail_seen', 0)
+                        state['fail_seen'] = k + 1
+                        if k == store_fail[1]:
+                            from slimta.queue import QueueError
+                            h.errors.append('injected: %s #%d' % (name, k))
+                            raise QueueError('storage failed')
                     return f(*a, **kw)
                 finally:
                     state['store_inflight'] -= 1
@@ -216,12 +224,12 @@ def _run_history_body(h, backend, sender, factory_bounces, backoff_table, rcpts,
 
 
 def run_history(backend, sender, factory_bounces, backoff_table, rcpts, outcomes, store_pool=None, relay_pool=None,
-                headers_only=False, timeout=2.5, expect_rounds=None):
+                headers_only=False, timeout=2.5, expect_rounds=None, store_fail=None):
     """Runs the history in its own greenlet under a hard time limit: a queue that blocks for ever (e.g. a bounded pool
     that is never released) is reported as ('hung', where) instead of stalling the check."""
     h = History()
     g = gevent.spawn(_run_history_body, h, backend, sender, factory_bounces, backoff_table, rcpts, outcomes,
-                     store_pool, relay_pool, headers_only, timeout, expect_rounds)
+                     store_pool, relay_pool, headers_only, timeout, expect_rounds, store_fail)
     g.join(timeout + 1.0)
     if not g.ready():
         g.kill(block=False)
